@@ -348,6 +348,25 @@ for _k, _v in {
     'C20': 'Round 9/10: only one forecast of a pair re-ordered, orderly re-orderings of a complete lattice.',
 }.items():
     ADDENDA[_k] = (ADDENDA.get(_k, '') + ' ' + _v).strip()
+for _k, _v in {
+    'C01': 'Rounds 11-13: every batch also asked point by point, flagged regions rebuilt from their dictionary form.',
+    'C02': 'Rounds 11-13: long grids whose step exceeds their first edge.',
+    'C03': 'Rounds 11-13: a magnitude of 1e10 in the open top bin next to one a millionth below the lowest edge.',
+    'C04': 'Rounds 11-13: the empty statement list, a filtered copy followed by an in-place call on the original.',
+    'C05': 'Rounds 11-13: totals within 1e-5 of the observed number, top-bin events far above the top edge.',
+    'C06': 'Rounds 11-13: the prescribed count known independently, rates below 1e-8, injected numbers for an empty catalog.',
+    'C07': 'Rounds 11-13: scale factors within 1e-5 of 1.',
+    'C08': 'Rounds 11-13: one single non-median difference, rate ratios down to 1e-16, a catalog shortened in place between evaluations.',
+    'C10': 'Rounds 11-13: statistics 1e-10 apart (exact quantile rule), the full_calculation route of the MLL test.',
+    'C11': 'Rounds 11-13: rates that need all 17 significant digits.',
+    'C12': 'Rounds 11-13: coordinates at the ends of their ranges.',
+    'C13': 'Rounds 11-13: single-precision magnitude edges.',
+    'C15': 'Rounds 11-13: answers that are not datetimes are observations.',
+    'C16': 'Rounds 11-13: a rate of 8e-6 in the quick tier.',
+    'C19': 'Rounds 11-13: range-end coordinates, binade-crossing years with every millisecond.',
+    'C20': 'Rounds 11-13: a bin carrying 1e-12 of the rate and holding an event.',
+}.items():
+    ADDENDA[_k] = (ADDENDA.get(_k, '') + ' ' + _v).strip()
 
 NOT_YET = 'check not built yet in this round (specification planned in DESIGN.md section 5); not claimed until it exists'
 
